@@ -27,6 +27,13 @@ func init() {
 		{Name: "will-payload-copied-from-rest-of-frame", Rule: "R18.4", Where: "(*Connect).UnmarshalBinary#frame-access", Edits: []Edit{{"connect.go", "\t\tp.will.SetRetain(p.flags.Has(WillRetain))\n", "\t\tp.will.SetRetain(p.flags.Has(WillRetain))\n\t\tp.will.payload = append(rawdata(nil), buf.data[buf.i-len(p.willPayload):]...)\n"}}},
 		{Name: "setter-trims-line-ending", Rule: "R18.5", Where: "(*Connect).SetPassword", Edits: []Edit{
 			{"connect.go", "\tp.password = v\n", "\tp.password = bytes.TrimRight(v, \"\\r\\n\")\n"}}},
+		{Name: "setter-drops-blank-password", Rule: "R18.5", Where: "isBlank#branch-on-credential", Edits: []Edit{
+			{"connect.go", "\tp.password = v\n", "\tif isBlank(v) {\n\t\tv = nil\n\t}\n\tp.password = v\n"},
+			{"connect.go", "// String returns a short string describing the connect packet.", "func isBlank(v []byte) bool {\n\tfor _, c := range v {\n\t\tif c != ' ' && c != '\\n' {\n\t\t\treturn false\n\t\t}\n\t}\n\treturn true\n}\n\n// String returns a short string describing the connect packet."}}},
+		{Name: "dump-prints-hex-of-the-encoded-frame", Rule: "R18.1", Where: "(*Connect).dump", Edits: []Edit{{"connect.go", "\tp.UserProperties.dump(w)\n}\n\nfunc stars", "\tp.UserProperties.dump(w)\n\tb := make([]byte, p.fill(_LEN, 0))\n\tp.fill(b, 0)\n\tfmt.Fprintf(w, \"Wire: % x\\n\", b)\n}\n\nfunc stars"}}},
+		{Name: "mask-counts-runes", Rule: "R18.2", Where: "stars", Edits: []Edit{{"connect.go", "fmt.Fprintf(w, \"Username: %v\\n\", stars(len(p.Username())))", "fmt.Fprintf(w, \"Username: %v\\n\", stars(len([]rune(p.Username()))))"}}},
+		{Name: "dump-table-driven-rows-carry-username", Rule: "R18.1", Where: "(*Connect).dump", Edits: []Edit{{"connect.go", "\tp.UserProperties.dump(w)\n}\n\nfunc stars", "\tp.UserProperties.dump(w)\n\trows := []struct{ k, v string }{{\"Username\", p.Username()}, {\"ClientID\", p.ClientID()}}\n\tfor _, r := range rows {\n\t\tfmt.Fprintf(w, \"%s: %v\\n\", r.k, r.v)\n\t}\n}\n\nfunc stars"}}},
+		{Name: "dump-through-a-bytes-buffer", Rule: "R18.1", Where: "(*Connect).dump", Edits: []Edit{{"connect.go", "\tp.UserProperties.dump(w)\n}\n\nfunc stars", "\tp.UserProperties.dump(w)\n\tvar bb bytes.Buffer\n\tbb.WriteString(p.Username())\n\tfmt.Fprint(w, bb.String())\n}\n\nfunc stars"}}},
 		{Name: "setter-stores-a-copy", Silent: true, Edits: []Edit{{"connect.go", "\tp.password = v\n", "\tp.password = append([]byte(nil), v...)\n"}}},
 		{Name: "print-length-only", Silent: true, Edits: []Edit{{"connect.go", "fmt.Fprintf(w, \"Password: %q\\n\", stars(len(p.Password())))", "fmt.Fprintf(w, \"Password: %d bytes\\n\", len(p.Password()))"}}},
 	}})
@@ -38,6 +45,8 @@ type taint struct {
 	secret  map[string]bool // "T.f" field keys
 	tainted map[ssa.Value]bool
 	memT    map[ssa.Value]bool // base objects (allocs, params, make results) whose content is secret
+	lenT    map[ssa.Value]bool // strings/slices whose LENGTH depends on credential content ([]rune(s), TrimSpace(s), s[:k] with a content-derived k …)
+	memLenT map[ssa.Value]bool // base objects holding such values
 	why     map[ssa.Value]string
 	changed bool
 }
@@ -73,11 +82,39 @@ func baseObject(v ssa.Value) ssa.Value {
 		case *ssa.IndexAddr:
 			v = x.X
 		case *ssa.FieldAddr:
+			// a field of local memory (a composite literal, an element of a local slice): the whole local object;
+			// a field of something that came in from outside (the packet): that field only
+			switch r := fieldRoot(x).(type) {
+			case *ssa.Alloc, *ssa.MakeSlice:
+				return r
+			case *ssa.Call:
+				if bi, ok := r.Call.Value.(*ssa.Builtin); ok && bi.Name() == "append" {
+					return r
+				}
+			}
 			return v
 		case *ssa.ChangeType:
 			v = x.X
 		case *ssa.Convert:
 			return v
+		default:
+			return v
+		}
+	}
+	return v
+}
+
+// fieldRoot: the object a chain of field/element addresses starts from.
+func fieldRoot(fa *ssa.FieldAddr) ssa.Value {
+	var v ssa.Value = fa.X
+	for i := 0; i < 10; i++ {
+		switch x := v.(type) {
+		case *ssa.FieldAddr:
+			v = x.X
+		case *ssa.IndexAddr:
+			v = x.X
+		case *ssa.Slice:
+			v = x.X
 		default:
 			return v
 		}
@@ -125,7 +162,63 @@ func (t *taint) run() {
 	}
 }
 
-func (t *taint) isT(v ssa.Value) bool { return v != nil && t.tainted[v] }
+// isT: v carries credential content — as a value, or as a pointer/slice into memory that holds it.
+func (t *taint) isT(v ssa.Value) bool {
+	if v == nil {
+		return false
+	}
+	if t.tainted[v] {
+		return true
+	}
+	if _, isConst := v.(*ssa.Const); isConst {
+		return false
+	}
+	return pointerLike(v.Type()) && t.memT[baseObject(v)]
+}
+
+func (t *taint) whyOf(v ssa.Value) string {
+	if w := t.why[v]; w != "" {
+		return w
+	}
+	if w := t.why[baseObject(v)]; w != "" {
+		return w
+	}
+	return "credential content"
+}
+
+func (t *taint) markLen(v ssa.Value) {
+	if v == nil || t.lenT[v] {
+		return
+	}
+	if _, isConst := v.(*ssa.Const); isConst {
+		return
+	}
+	t.lenT[v] = true
+	t.changed = true
+}
+
+func (t *taint) isLenT(v ssa.Value) bool {
+	if v == nil {
+		return false
+	}
+	return t.lenT[v] || t.memLenT[baseObject(v)] && pointerLike(v.Type())
+}
+
+// lengthPreserving: a conversion between string and []byte keeps the length; []rune(s), string(runes) and
+// string(int) do not.
+func lengthPreserving(from, to types.Type) bool {
+	ok := func(t types.Type) bool {
+		switch u := t.Underlying().(type) {
+		case *types.Basic:
+			return u.Info()&types.IsString != 0
+		case *types.Slice:
+			b, isB := u.Elem().Underlying().(*types.Basic)
+			return isB && b.Kind() == types.Uint8
+		}
+		return false
+	}
+	return ok(from) && ok(to)
+}
 
 func (t *taint) step(fn *ssa.Function, ins ssa.Instruction) {
 	switch x := ins.(type) {
@@ -146,48 +239,69 @@ func (t *taint) step(fn *ssa.Function, ins ssa.Instruction) {
 			if t.isT(x.X) || t.memT[baseObject(x.X)] {
 				t.mark(x, "load from memory holding credential bytes")
 			}
+			if t.memLenT[baseObject(x.X)] || t.lenT[x.X] {
+				t.markLen(x)
+			}
 		default:
 			if t.isT(x.X) {
-				t.mark(x, t.why[x.X])
+				t.mark(x, t.whyOf(x.X))
 			}
 		}
 	case *ssa.Convert:
 		if t.isT(x.X) {
-			t.mark(x, t.why[x.X])
+			t.mark(x, t.whyOf(x.X))
+			if !lengthPreserving(x.X.Type(), x.Type()) {
+				t.markLen(x) // []rune(s), string(runes): the length is a function of the bytes
+			}
+		}
+		if t.isLenT(x.X) {
+			t.markLen(x)
 		}
 	case *ssa.ChangeType:
 		if t.isT(x.X) {
-			t.mark(x, t.why[x.X])
+			t.mark(x, t.whyOf(x.X))
+		}
+		if t.isLenT(x.X) {
+			t.markLen(x)
 		}
 	case *ssa.MakeInterface:
 		if t.isT(x.X) {
-			t.mark(x, t.why[x.X])
+			t.mark(x, t.whyOf(x.X))
+		}
+		if t.isLenT(x.X) {
+			t.markLen(x)
 		}
 	case *ssa.ChangeInterface:
 		if t.isT(x.X) {
-			t.mark(x, t.why[x.X])
+			t.mark(x, t.whyOf(x.X))
+		}
+		if t.isLenT(x.X) {
+			t.markLen(x)
 		}
 	case *ssa.Slice:
 		if t.isT(x.X) {
-			t.mark(x, t.why[x.X])
+			t.mark(x, t.whyOf(x.X))
+		}
+		if t.isLenT(x.X) || t.isT(x.Low) || t.isT(x.High) || t.isT(x.Max) {
+			t.markLen(x) // a bound computed from the content decides the length
 		}
 	case *ssa.IndexAddr:
 		if t.isT(x.X) {
-			t.mark(x, t.why[x.X])
+			t.mark(x, t.whyOf(x.X))
 		}
 	case *ssa.Index:
 		if t.isT(x.X) {
-			t.mark(x, t.why[x.X])
+			t.mark(x, t.whyOf(x.X))
 		}
 	case *ssa.Field:
 		if t.isT(x.X) {
-			if st, ok := x.X.Type().Underlying().(*types.Struct); ok {
-				// field of a tainted struct copy: only the secret fields carry content
+			if st, ok := x.X.Type().Underlying().(*types.Struct); ok && secretType(x.X.Type(), t.secret, 0) {
+				// field of a copy of a struct that declares the credential fields: only those carry content
 				if t.secret[fmt.Sprintf("%s.%d", typeStr(x.X.Type()), x.Field)] || secretType(st.Field(x.Field).Type(), t.secret, 0) {
-					t.mark(x, t.why[x.X])
+					t.mark(x, t.whyOf(x.X))
 				}
 			} else {
-				t.mark(x, t.why[x.X])
+				t.mark(x, t.whyOf(x.X))
 			}
 		}
 	case *ssa.Lookup:
@@ -196,39 +310,57 @@ func (t *taint) step(fn *ssa.Function, ins ssa.Instruction) {
 		}
 	case *ssa.Extract:
 		if t.isT(x.Tuple) {
-			t.mark(x, t.why[x.Tuple])
+			t.mark(x, t.whyOf(x.Tuple))
+		}
+		if t.isLenT(x.Tuple) && pointerLike(x.Type()) {
+			t.markLen(x)
 		}
 	case *ssa.TypeAssert:
 		if t.isT(x.X) {
-			t.mark(x, t.why[x.X])
+			t.mark(x, t.whyOf(x.X))
+		}
+		if t.isLenT(x.X) {
+			t.markLen(x)
 		}
 	case *ssa.Phi:
 		for _, e := range x.Edges {
 			if t.isT(e) {
-				t.mark(x, t.why[e])
+				t.mark(x, t.whyOf(e))
+			}
+			if t.isLenT(e) {
+				t.markLen(x)
 			}
 		}
 	case *ssa.BinOp:
 		if t.isT(x.X) || t.isT(x.Y) {
-			w := t.why[x.X]
-			if w == "" {
-				w = t.why[x.Y]
+			w := t.whyOf(x.X)
+			if !t.isT(x.X) {
+				w = t.whyOf(x.Y)
 			}
 			t.mark(x, w)
 		}
+		if t.isLenT(x.X) || t.isLenT(x.Y) {
+			t.markLen(x) // concatenation
+		}
 	case *ssa.Range:
 		if t.isT(x.X) {
-			t.mark(x, t.why[x.X])
+			t.mark(x, t.whyOf(x.X))
 		}
 	case *ssa.Next:
 		if t.isT(x.Iter) {
-			t.mark(x, t.why[x.Iter])
+			t.mark(x, t.whyOf(x.Iter))
 		}
 	case *ssa.Store:
 		if t.isT(x.Val) {
-			t.markMem(x.Addr, t.why[x.Val])
+			t.markMem(x.Addr, t.whyOf(x.Val))
 			if al, ok := x.Addr.(*ssa.Alloc); ok {
-				t.markMem(al, t.why[x.Val])
+				t.markMem(al, t.whyOf(x.Val))
+			}
+		}
+		if t.isLenT(x.Val) {
+			if b := baseObject(x.Addr); b != nil && !t.memLenT[b] {
+				t.memLenT[b] = true
+				t.changed = true
 			}
 		}
 	case *ssa.MapUpdate:
@@ -241,7 +373,7 @@ func (t *taint) step(fn *ssa.Function, ins ssa.Instruction) {
 				if cf, ok := x.Fn.(*ssa.Function); ok && i < len(cf.FreeVars) {
 					t.markMem(cf.FreeVars[i], "captured variable holding credential bytes")
 					if t.isT(bnd) {
-						t.mark(cf.FreeVars[i], t.why[bnd])
+						t.mark(cf.FreeVars[i], t.whyOf(bnd))
 					}
 				}
 			}
@@ -249,7 +381,7 @@ func (t *taint) step(fn *ssa.Function, ins ssa.Instruction) {
 	case *ssa.Return:
 		// results flow to every call site in scope
 		for i, r := range x.Results {
-			if !t.isT(r) {
+			if !t.isT(r) && !t.isLenT(r) {
 				continue
 			}
 			for caller := range t.scope {
@@ -259,10 +391,17 @@ func (t *taint) step(fn *ssa.Function, ins ssa.Instruction) {
 							continue
 						}
 						if v, ok := ci.Site.(*ssa.Call); ok {
+							var dst ssa.Value
 							if len(x.Results) == 1 {
-								t.mark(v, t.why[r])
+								dst = v
 							} else if ex := extractOf(v, i); ex != nil {
-								t.mark(ex, t.why[r])
+								dst = ex
+							}
+							if dst != nil && t.isT(r) {
+								t.mark(dst, t.whyOf(r))
+							}
+							if dst != nil && t.isLenT(r) {
+								t.markLen(dst)
 							}
 						}
 					}
@@ -274,7 +413,11 @@ func (t *taint) step(fn *ssa.Function, ins ssa.Instruction) {
 		if bi, ok := cc.Value.(*ssa.Builtin); ok {
 			switch bi.Name() {
 			case "len", "cap":
-				// length only: not content
+				// the length of the credential itself is not content; the length of a value derived from it
+				// in a way that does not preserve the length is
+				if t.isLenT(cc.Args[0]) {
+					t.mark(x, "length of a value whose length depends on the credential's bytes")
+				}
 			case "copy":
 				if t.isT(cc.Args[1]) || t.memT[baseObject(cc.Args[1])] {
 					t.markMem(cc.Args[0], "copy of credential bytes")
@@ -284,12 +427,15 @@ func (t *taint) step(fn *ssa.Function, ins ssa.Instruction) {
 			case "append":
 				for _, a := range cc.Args {
 					if t.isT(a) {
-						t.mark(x, t.why[a])
+						t.mark(x, t.whyOf(a))
+					}
+					if t.isLenT(a) {
+						t.markLen(x)
 					}
 				}
 			case "ssa:wrapnilchk":
 				if t.isT(cc.Args[0]) {
-					t.mark(x, t.why[cc.Args[0]])
+					t.mark(x, t.whyOf(cc.Args[0]))
 				}
 			}
 			return
@@ -313,11 +459,14 @@ func (t *taint) step(fn *ssa.Function, ins ssa.Instruction) {
 				}
 				for i, a := range args {
 					if i < len(cal.Params) && (t.isT(a) || t.memT[baseObject(a)] && pointerLike(a.Type())) {
-						if t.isT(a) {
-							t.mark(cal.Params[i], t.why[a])
+						if t.tainted[a] {
+							t.mark(cal.Params[i], t.whyOf(a))
 						} else {
 							t.markMem(cal.Params[i], "argument pointing to credential bytes")
 						}
+					}
+					if i < len(cal.Params) && t.isLenT(a) {
+						t.markLen(cal.Params[i])
 					}
 				}
 				// a buffer the callee fills with credential bytes is tainted here too
@@ -327,11 +476,32 @@ func (t *taint) step(fn *ssa.Function, ins ssa.Instruction) {
 					}
 				}
 			}
+			// external writers (strings.Builder, bytes.Buffer, PutUintN): the destination's memory receives the content
+			if sc := cc.StaticCallee(); sc != nil && sc.Blocks == nil {
+				if idx, isW := externWritesArg[fullName(sc)]; isW && idx < len(args) {
+					for j, a := range args {
+						if j != idx && t.isT(a) {
+							t.markMem(args[idx], "buffer receiving credential bytes through "+fullName(sc))
+						}
+					}
+				}
+			}
 			// unknown externals: result carries the taint of its arguments
 			if ci.Ext != nil {
 				for _, a := range args {
 					if t.isT(a) {
-						t.mark(x, t.why[a])
+						t.mark(x, t.whyOf(a))
+						// an external function of the content (TrimSpace, Fields, ToValidUTF8 …): the length of what
+						// it returns is a function of the bytes too
+						t.markLen(x)
+						for _, r := range *x.Referrers() {
+							if ex, ok := r.(*ssa.Extract); ok && pointerLike(ex.Type()) {
+								t.markLen(ex)
+							}
+						}
+					}
+					if t.isLenT(a) {
+						t.markLen(x)
 					}
 				}
 			}
@@ -373,7 +543,7 @@ func checkC18(p *Prog, c *Check) {
 		c.Bad("anchor", "Dump", "-", "exported function Dump not found")
 	}
 	scope := p.Reach(roots)
-	t := &taint{p: p, scope: scope, secret: secret, tainted: map[ssa.Value]bool{}, memT: map[ssa.Value]bool{}, why: map[ssa.Value]string{}}
+	t := &taint{p: p, scope: scope, secret: secret, tainted: map[ssa.Value]bool{}, memT: map[ssa.Value]bool{}, lenT: map[ssa.Value]bool{}, memLenT: map[ssa.Value]bool{}, why: map[ssa.Value]string{}}
 	t.run()
 	c.Measured["functions_in_diagnostic_scope"] = len(scope)
 	c.Measured["values_carrying_credential_content"] = len(t.tainted)
@@ -393,7 +563,7 @@ func checkC18(p *Prog, c *Check) {
 							cons := fmt.Sprintf("%s#fmt-operand", qname(fn))
 							if t.isT(a) {
 								fnBad++
-								c.Bad("R18.1", cons, posOf(p, ins), fmt.Sprintf("operand %d of %s carries credential content (%s)", i, fc.Name, t.why[a]))
+								c.Bad("R18.1", cons, posOf(p, ins), fmt.Sprintf("operand %d of %s carries credential content (%s)", i, fc.Name, t.whyOf(a)))
 								continue
 							}
 							// a struct/pointer whose printing would descend into the fields
@@ -433,7 +603,7 @@ func checkC18(p *Prog, c *Check) {
 					nconds++
 					if t.isT(x.Cond) {
 						fnBad++
-						c.Bad("R18.2", qname(fn)+"#branch", posOf(p, ins), "a branch in the diagnostic path depends on credential content ("+t.why[x.Cond]+"): the output can reveal it")
+						c.Bad("R18.2", qname(fn)+"#branch", posOf(p, ins), "a branch in the diagnostic path depends on credential content ("+t.whyOf(x.Cond)+"): the output can reveal it")
 					}
 				case *ssa.Return:
 					isRoot := false
@@ -445,7 +615,7 @@ func checkC18(p *Prog, c *Check) {
 					for _, r := range x.Results {
 						if isRoot && t.isT(r) {
 							fnBad++
-							c.Bad("R18.1", qname(fn)+"#result", posOf(p, ins), "the rendered text carries credential content ("+t.why[r]+")")
+							c.Bad("R18.1", qname(fn)+"#result", posOf(p, ins), "the rendered text carries credential content ("+t.whyOf(r)+")")
 						}
 					}
 				}
@@ -712,7 +882,61 @@ func checkCredentialsStoredAsGiven(p *Prog, c *Check, rule string, tn string, fi
 			}
 		}
 	}
-	// composite literals / whole-struct stores are outside: a Connect is built by NewConnect and the setters
+	// no branch in the storing functions (and what they call) may depend on the bytes of the argument: a value
+	// chosen between "the argument" and "nothing" by looking at its content (blank → no password) makes the stored
+	// length depend on the content although each alternative is a carrier
+	var setters []*ssa.Function
+	for _, fn := range p.AllFuncs() {
+		has := false
+		for _, b := range fn.Blocks {
+			for _, ins := range b.Instrs {
+				if fa, ok := ins.(*ssa.FieldAddr); ok && isCred(fa) {
+					for _, r := range *fa.Referrers() {
+						if st, ok := r.(*ssa.Store); ok && st.Addr == ssa.Value(fa) {
+							has = true
+						}
+						if cl, ok := r.(*ssa.Call); ok && cl.Call.StaticCallee() != nil {
+							has = true
+						}
+					}
+				}
+			}
+		}
+		if has && fn.Signature.Recv() != nil && len(fn.Params) > 1 {
+			setters = append(setters, fn)
+		}
+	}
+	if len(setters) > 0 {
+		scope := p.Reach(setters)
+		t := &taint{p: p, scope: scope, secret: map[string]bool{}, tainted: map[ssa.Value]bool{}, memT: map[ssa.Value]bool{}, lenT: map[ssa.Value]bool{}, memLenT: map[ssa.Value]bool{}, why: map[ssa.Value]string{}}
+		for _, fn := range setters {
+			for _, prm := range fn.Params[1:] {
+				switch u := prm.Type().Underlying().(type) {
+				case *types.Slice:
+					t.mark(prm, "the credential passed to "+qname(fn))
+				case *types.Basic:
+					if u.Info()&types.IsString != 0 {
+						t.mark(prm, "the credential passed to "+qname(fn))
+					}
+				}
+			}
+		}
+		t.run()
+		nb := 0
+		for _, fn := range sortedFuncs(scope) {
+			for _, b := range fn.Blocks {
+				for _, ins := range b.Instrs {
+					if iff, ok := ins.(*ssa.If); ok {
+						nb++
+						if t.isT(iff.Cond) {
+							c.Bad(rule, qname(fn)+"#branch-on-credential", posOf(p, iff), "a branch on the way to the credential field depends on the bytes of the argument ("+t.whyOf(iff.Cond)+"): what is stored, and so the length and flag the diagnostics print, is chosen by looking at the content")
+						}
+					}
+				}
+			}
+		}
+		c.OK(rule, "branches in the credential setters", "-", fmt.Sprintf("%d setter(s), %d function(s) reachable, %d branch(es): emptiness and length may be tested, content is not", len(setters), len(scope), nb))
+	}
 	c.Measured["credential_stores"] = n
 	c.Floor("stores into the credential fields", n, 2, "SetUsername and SetPassword")
 }
